@@ -838,6 +838,15 @@ func runScenario(id int, seed int64, maxEvents int) *scenario {
 	rn := &runner{g: g, conn: conn, w: w, p: p, r: r, sc: sc}
 	start := time.Now()
 
+	if g.pick(8) == 0 {
+		// the read pump is started by NewConnectionHandler, Run() is called a moment later: the peer's first
+		// message can be handled before Run()
+		if g.pick(3) == 0 {
+			rn.evMsg(g.anyValid())
+		} else {
+			rn.evMsg([]byte{0, 0})
+		}
+	}
 	rn.do("run", rn.randEnv(), rn.randFail(), func() { conn.Run() })
 
 	// bias of this scenario: how cooperative the peer is
